@@ -70,6 +70,13 @@ ASSUMPTIONS = [
     "hill-climbers: neighbourhood = replace one position by one element of the decision space not in the solution; "
     "order = (sum of violations, sum of objectives) lexicographic, strict improvement, exact float comparison on "
     "evaluations performed in the same element order the optimiser used",
+    "'any objective data': every objective coefficient of a generated problem is multiplied by a unit 10**e, e in "
+    "{-12,-9,-6,-3,0,4,9,15}, and one data mode plants candidates that differ by multiples of 2**-36 (~1.5e-11) around a "
+    "common value (near-ties whose sums stay exactly representable); all oracles are scale-free (exact comparisons on "
+    "fresh evaluations, tolerances proportional to the sum of absolute terms), so no clause changes with the unit",
+    "population-wise evaluation (elementwise=False, a documented constructor option) is drawn for 3/8 of the problems "
+    "handed to pymoo-backed optimisers, and then half of them carry an inequality AND an equality constraint, so that "
+    "the F / G / H columns assembled by Problem._evaluate's matrix branch are each compared with a fresh evaluation",
 ]
 
 EPS = 2.220446049250313e-16
@@ -109,6 +116,11 @@ def total_cv(g, h):
 # =====================================================================================================================
 # harness-defined problems (built deterministically from a JSON spec)
 # =====================================================================================================================
+def spec_scale(spec):
+    """unit of the objective data: every objective coefficient of the generated problem is multiplied by 10**scale_exp"""
+    return 10.0 ** int(spec.get("scale_exp", 0))
+
+
 class _NoLatent:
     def latentfn(self, x, *args, **kwargs):     # not abstract in opt.prob, present for symmetry with selection problems
         raise NotImplementedError
@@ -122,8 +134,9 @@ class HSubsetTable(_NoLatent, SubsetProblem):
         self.spec = spec
         labels = [int(e) for e in spec["labels"]]
         self._pos = {e: i for i, e in enumerate(labels)}
-        self._vals = numpy.array(spec["vals"], dtype=float).reshape(len(labels), spec["nobj"])
-        self._q = float(spec["q"])
+        sc = spec_scale(spec)
+        self._vals = numpy.array(spec["vals"], dtype=float).reshape(len(labels), spec["nobj"]) * sc
+        self._q = float(spec["q"]) * sc
         self._u = numpy.array(spec["u"], dtype=float)
         self._qdir = numpy.array([1.0 if j % 2 == 0 else -1.0 for j in range(spec["nobj"])])
         iq, eq = spec["ineq"], spec["eq"]
@@ -181,7 +194,7 @@ def build_subset_problem(spec):
     if spec["kind"] == "table":
         return HSubsetTable(spec)
     labels = [int(e) for e in spec["labels"]]
-    ebv = numpy.array(spec["ebv"], dtype=float).reshape(spec["nrow"], spec["ntrait"])
+    ebv = numpy.array(spec["ebv"], dtype=float).reshape(spec["nrow"], spec["ntrait"]) * spec_scale(spec)
     iq, eq = spec["ineq"], spec["eq"]
     space = numpy.array(labels, dtype="int64")
     prob = EstimatedBreedingValueSubsetSelectionProblem(
@@ -215,8 +228,9 @@ class _VecMixin(_NoLatent):
     def _setup(self, spec):
         self.spec = spec
         n = spec["n"]
-        self._A = numpy.array(spec["A"], dtype=float).reshape(n, spec["nobj"])
-        self._q = float(spec["q"])
+        sc = spec_scale(spec)
+        self._A = numpy.array(spec["A"], dtype=float).reshape(n, spec["nobj"]) * sc
+        self._q = float(spec["q"]) * sc
         self._u = numpy.array(spec["u"], dtype=float)
         self._qdir = numpy.array([1.0 if j % 2 == 0 else -1.0 for j in range(spec["nobj"])])
         iq, eq = spec["ineq"], spec["eq"]
@@ -299,7 +313,7 @@ def build_vector_problem(family, spec):
         return hcls(spec)
     kw = _vec_kwargs(spec, dt)
     iq = spec["ineq"]
-    kw.update(ebv=numpy.array(spec["A"], dtype=float).reshape(spec["n"], spec["nobj"]),
+    kw.update(ebv=numpy.array(spec["A"], dtype=float).reshape(spec["n"], spec["nobj"]) * spec_scale(spec),
               ineqcv_trans=_ineq_lin_trans if iq else None,
               ineqcv_trans_kwargs={"c": numpy.array(iq["c"], dtype=float), "cap": iq["cap"], "base": iq["base"], "signed": bool(iq.get("signed"))} if iq else None)
     return ecls(**kw)
@@ -471,8 +485,20 @@ WT = [1.0, 1.0, -1.0, -1.0, 2.0, 0.5, -3.0]
 CVWT = [1.0, 1.0, 2.0, 0.5]
 
 
+# exponents of the unit of the objective data ("any objective data": per-locus variances ~1e-9 ... sums of squares ~1e15)
+# (Hypothesis over-samples the two ends of a sampled_from list: the common choice sits at both ends)
+SCALE_EXP = [0] * 4 + [-12, -9, -9, -6, -3, 4, 9, 15] + [0] * 3
+NEAR_TIE_STEP = 2.0 ** -36          # ~1.5e-11: candidates that differ in the 11th digit (sums stay exactly representable)
+EW_FALSE = [False, False, True, False, True, False, True, False]
+CONS = ["none", "none", "none", "ineq", "ineq", "eq", "both"]
+CONS_MATRIX = ["ineq", "both", "none", "both", "eq", "both", "ineq"]    # population-wise evaluation stacks F, G and H separately
+
+
 def _numbers(draw, count):
-    mode = draw(st.sampled_from(["int", "int", "float", "few"]))
+    mode = draw(st.sampled_from(["int", "float", "neartie", "few", "int"]))
+    if mode == "neartie":
+        c = draw(st.sampled_from([1.0, -2.0, 3.0, 0.0]))
+        return [c + j * NEAR_TIE_STEP for j in draw(st.lists(st.integers(-6, 6), min_size=count, max_size=count))]
     if mode == "int":
         return [float(v) for v in draw(st.lists(st.integers(-5, 5), min_size=count, max_size=count))]
     if mode == "few":
@@ -493,7 +519,10 @@ def subset_spec(draw, nobj, nmax=12, kmax=6, infeasible_ok=False, matrix_eval=Fa
     else:
         n = draw(st.integers(1, kmax))
         k = n
-    spec = {"kind": kind, "k": k, "nobj": nobj, "wt": [draw(st.sampled_from(WT)) for _ in range(nobj)]}
+    spec = {"kind": kind, "k": k, "nobj": nobj, "wt": [draw(st.sampled_from(WT)) for _ in range(nobj)],
+            "scale_exp": draw(st.sampled_from(SCALE_EXP))}
+    if matrix_eval and draw(st.sampled_from(EW_FALSE)):
+        spec["elementwise"] = False         # pymoo then hands the whole population matrix to Problem._evaluate
     if kind == "table":
         if draw(st.booleans()):
             spec["labels"] = list(range(n))
@@ -513,7 +542,7 @@ def subset_spec(draw, nobj, nmax=12, kmax=6, infeasible_ok=False, matrix_eval=Fa
             spec["ntrait"] = nobj
             spec["trans"] = "identity"
         spec["ebv"] = _numbers(draw, nrow * spec["ntrait"])
-    cons = draw(st.sampled_from(["none", "none", "none", "ineq", "ineq", "eq", "both"]))
+    cons = draw(st.sampled_from(CONS if spec.get("elementwise", True) else CONS_MATRIX))
     spec["ineq"] = None
     spec["eq"] = None
     if cons in ("ineq", "both"):
@@ -525,8 +554,6 @@ def subset_spec(draw, nobj, nmax=12, kmax=6, infeasible_ok=False, matrix_eval=Fa
     if cons in ("eq", "both"):
         spec["eq"] = {"t": draw(st.lists(st.integers(0, 3), min_size=n, max_size=n)), "m": draw(st.sampled_from([2, 2, 3])),
                       "wt": draw(st.sampled_from(CVWT))}
-    if matrix_eval and draw(st.sampled_from([False] * 7 + [True] + [False] * 8)):
-        spec["elementwise"] = False         # pymoo then hands the whole population matrix to Problem._evaluate
     return spec
 
 
@@ -558,10 +585,15 @@ def ga_subset_case(draw):
 
 
 @st.composite
-def vector_spec(draw, family, nobj):
-    kind = draw(st.sampled_from(["table", "table", "table", "ebv"]))
+def vector_spec(draw, family, nobj, matrix_both=False):
+    # matrix_both: one draw of the caller decides the whole combination (population-wise evaluation of a problem with an
+    # inequality and an equality constraint) -- a conjunction of four independent draws is produced too unevenly
+    kind = "table" if matrix_both else draw(st.sampled_from(["table", "table", "table", "ebv"]))
     n = draw(st.integers(1, 7))
-    spec = {"kind": kind, "n": n, "nobj": nobj, "wt": [draw(st.sampled_from(WT)) for _ in range(nobj)]}
+    spec = {"kind": kind, "n": n, "nobj": nobj, "wt": [draw(st.sampled_from(WT)) for _ in range(nobj)],
+            "scale_exp": draw(st.sampled_from(SCALE_EXP))}
+    if matrix_both or draw(st.sampled_from(EW_FALSE)):
+        spec["elementwise"] = False
     lo, hi = [], []
     for _ in range(n):
         if family == "binary":
@@ -580,8 +612,10 @@ def vector_spec(draw, family, nobj):
     spec["A"] = _numbers(draw, n * nobj)
     spec["q"] = draw(st.sampled_from([0.0, 0.0, 1.0, -0.5])) if kind == "table" else 0.0
     spec["u"] = draw(st.lists(st.integers(-2, 2), min_size=n, max_size=n))
-    cons = draw(st.sampled_from(["none", "none", "ineq", "ineq", "eq", "both"]))
-    if kind == "ebv" or family == "real":
+    cons = draw(st.sampled_from(["none", "none", "ineq", "ineq", "eq", "both"] if spec.get("elementwise", True) else CONS_MATRIX))
+    if matrix_both:
+        cons = "both"
+    elif kind == "ebv" or family == "real":
         cons = {"eq": "ineq", "both": "ineq"}.get(cons, cons)      # equality on a real vector: measure-zero feasible set
     spec["ineq"] = None
     spec["eq"] = None
@@ -596,17 +630,16 @@ def vector_spec(draw, family, nobj):
     if cons in ("eq", "both"):
         spec["eq"] = {"t": draw(st.lists(st.integers(0, 3), min_size=n, max_size=n)), "m": draw(st.sampled_from([2, 2, 3])),
                       "wt": draw(st.sampled_from(CVWT))}
-    if draw(st.sampled_from([False] * 6 + [True] + [False] * 7)):
-        spec["elementwise"] = False
     return spec
 
 
 @st.composite
 def ga_vector_case(draw):
-    family = draw(st.sampled_from(["real", "integer", "binary"]))
+    matrix_both = draw(st.sampled_from([False] * 3 + [True] + [False] * 3))
+    family = draw(st.sampled_from(["integer", "binary"] if matrix_both else ["real", "integer", "binary"]))
     mo = draw(st.booleans())
     nobj = draw(st.sampled_from([2, 2, 3])) if mo else 1
-    return {"family": family, "mo": mo, "spec": draw(vector_spec(family, nobj)), "ngen": draw(st.integers(1, 6)),
+    return {"family": family, "mo": mo, "spec": draw(vector_spec(family, nobj, matrix_both)), "ngen": draw(st.integers(1, 6)),
             "pop": draw(st.integers(4, 16)), "seed": draw(st.integers(0, 2 ** 31 - 1))}
 
 
@@ -622,6 +655,15 @@ def _make_rng(r):
     return None
 
 
+def _scale_labels(ctx, spec):
+    e = int(spec.get("scale_exp", 0))
+    ctx.label("objective_unit<=1e-6", e <= -6)
+    ctx.label("objective_unit>=1e4", e >= 4)
+    both = bool(spec["ineq"] and spec["eq"])
+    ctx.label("matrix_evaluation", spec.get("elementwise", True) is False)
+    ctx.label("matrix_evaluation_with_ineq_and_eq", spec.get("elementwise", True) is False and both)
+
+
 def _spec_labels(ctx, spec, nobj_vals):
     n, k = len(spec["labels"]), spec["k"]
     ctx.label("kind=" + spec["kind"])
@@ -631,6 +673,7 @@ def _spec_labels(ctx, spec, nobj_vals):
     ctx.label("k==1", k == 1)
     ctx.label("labels_not_arange", list(spec["labels"]) != list(range(n)))
     ctx.label("nonseparable", spec["kind"] == "table" and spec["q"] != 0.0)
+    _scale_labels(ctx, spec)
     return ctx.nontrivial(n > k >= 2 and nobj_vals >= 3)
 
 
@@ -643,6 +686,8 @@ def check_exact(case, ctx):
     distinct_vals = len(set(float(s[0]) for s in singles))
     _spec_labels(ctx, spec, distinct_vals)
     ctx.label("algo=" + algo)
+    sv = sorted(set(float(s[0]) for s in singles))
+    ctx.label("distinct_single_values_closer_than_1e-8", any(b - a < 1e-8 for a, b in zip(sv, sv[1:])))
     constrained = bool(spec["ineq"] or spec["eq"])
     separable = spec["kind"] == "ebv" or spec["q"] == 0.0
 
@@ -818,6 +863,7 @@ def check_ga_vector(case, ctx):
     ctx.label("constrained", constrained)
     ctx.label("infeasible_by_construction", bool(spec["ineq"] and spec["ineq"]["base"]))
     ctx.label("has_pinned_variable", any(a == b for a, b in zip(spec["lo"], spec["hi"])))
+    _scale_labels(ctx, spec)
     ctx.nontrivial(n >= 2 and len(set(spec["A"])) >= 3)
     opt = (mocls if case["mo"] else socls)(ngen=case["ngen"], pop_size=case["pop"])
     if _matrix_eval_excluded(ctx, spec):
@@ -1024,19 +1070,21 @@ def check_operators(case, ctx):
 SUBCHECKS = [
     SubCheck("exact", check_exact, exact_case(), quick=350, thorough=4000, shards_quick=4,
              rule="generated (sorting | steepest-descent | sorting+steepest-descent) x (harness table problem separable/"
-                  "non-separable | real EBV subset problem) x (none|ineq|eq|both constraints) x rng kind/seed; "
+                  "non-separable | real EBV subset problem) x objective unit 1e-12..1e15 / near-tied data x (none|ineq|eq|both constraints) x rng kind/seed; "
                   "non-trivial = n > k >= 2 and >= 3 distinct single-member objective values; distinct by sha1 of the case",
              required_labels=("bruteforce_compared", "local_optimality_scanned", "constrained", "nonseparable",
-                              "labels_not_arange", "sd_start_with_replacement_has_duplicate")),
+                              "labels_not_arange", "sd_start_with_replacement_has_duplicate", "objective_unit<=1e-6",
+                              "objective_unit>=1e4", "distinct_single_values_closer_than_1e-8")),
     SubCheck("ga_subset", check_ga_subset, ga_subset_case(), quick=100, thorough=1500, shards_quick=6,
              rule="generated 7 pymoo-backed subset optimiser classes x problems as in 'exact' (1-3 objectives) x ngen 1-6 x "
-                  "pop_size 4-16; non-trivial = n > k >= 2 and >= 3 distinct single-member objective vectors",
-             required_labels=("front_size>=2", "constrained", "algo=SubsetGA", "algo=NSGA2", "algo=NSGA3",
+                  "pop_size 4-16 x element-wise / population-wise evaluation; non-trivial = n > k >= 2 and >= 3 distinct single-member objective vectors",
+             required_labels=("front_size>=2", "constrained", "matrix_evaluation_with_ineq_and_eq", "algo=SubsetGA", "algo=NSGA2", "algo=NSGA3",
                               "algo=MemeticSteepest", "algo=MemeticStochastic", "algo=MemeticMutatorA", "algo=MemeticMutatorB")),
     SubCheck("ga_vector", check_ga_vector, ga_vector_case(), quick=110, thorough=1500, shards_quick=4,
              rule="generated (real|integer|binary) x (GA | NSGA2) x (harness linear(+quadratic) problem | real EBV problem) x "
-                  "bounds incl. pinned variables x constraints; non-trivial = >= 2 variables and >= 3 distinct coefficients",
-             required_labels=("front_size>=2", "constrained", "family=real", "family=integer", "family=binary", "has_pinned_variable", "matrix_evaluation_of_direct_Problem_subclass")),
+                  "bounds incl. pinned variables x constraints x objective unit x element-wise / population-wise evaluation; non-trivial = >= 2 variables and >= 3 distinct coefficients",
+             required_labels=("front_size>=2", "constrained", "family=real", "family=integer", "family=binary", "has_pinned_variable", "matrix_evaluation_of_direct_Problem_subclass",
+                              "matrix_evaluation_with_ineq_and_eq")),
     SubCheck("operators", check_operators, operator_case(), quick=300, thorough=4000, shards_quick=2,
              rule="generated parent populations (valid subsets as label rows; integer vectors within bounds) for each operator of "
                   "pymoo_addon; non-trivial = n > k >= 2 (subset operators) / >= 2 variables with a free one (integer operators)",
